@@ -53,6 +53,20 @@ def fam_wiring(seed, big):
             out.append({"id": "w-repoint%d-%s-%s%s" % (which, b, c, "-thr" if thr else ""), "class": "wiring-repoint",
                         "argv": vargv(), "stdin": "none", "stdout": b, "stderr": c, "repeat": 3, "repoint": which,
                         "thread": thr})
+    # the parent runs with standard descriptors closed: the files it opens and the pipes the library creates land on
+    # the numbers 0-2 (already "in place", or in the way of another stream)
+    j = 0
+    for closed, triples in (([0], [("pipe", "none", "none"), ("file:a", "none", "none"), ("rc:S", "none", "none"),
+                                   ("pipe", "pipe", "pipe"), ("pipe", "file:b", "merge"), ("file:a", "pipe", "none")]),
+                            ([1], [("none", "pipe", "none"), ("none", "file:a", "none"), ("none", "pipe", "merge"),
+                                   ("pipe", "pipe", "pipe"), ("none", "rc:S", "rc:S")]),
+                            ([2], [("none", "none", "pipe"), ("none", "none", "file:a"), ("none", "pipe", "pipe")]),
+                            ([0, 1, 2], [("pipe", "pipe", "pipe"), ("file:a", "file:b", "file:c"), ("pipe", "file:b", "merge"),
+                                         ("file:a", "pipe", "pipe"), ("rc:S", "pipe", "merge")])):
+        for (a, b, c) in triples:
+            out.append({"id": "w-closed%d" % j, "class": "wiring-closed-std", "argv": vargv(), "stdin": a, "stdout": b,
+                        "stderr": c, "closed_std": closed, "repeat": 1})
+            j += 1
     # one file shared by several streams
     shared = [("none", "rc:S", "rc:S"), ("rc:S", "rc:S", "rc:S"), ("none", "dup:S", "dup:S"), ("dup:S", "pipe", "dup:S"),
               ("rc:S", "merge", "rc:S"), ("none", "rc:S", "merge"), ("none", "merge", "dup:S"), ("file:a", "file:a", "merge"),
